@@ -342,7 +342,10 @@ func (ri *RouteInformation) unmarshal(b []byte) error {
 	if err := checkPreference(ri.Preference); err != nil {
 		return err
 	}
-	ri.Prefix = CopyBytes(b[8 : 8+(pl/8)]) // copy bytes up to prefix len bits
+	// keep exactly the leading prefix-length bits, including those of a partial last byte
+	prefix := make(net.IP, net.IPv6len)
+	copy(prefix, b[8:8+(int(pl)+7)/8])
+	ri.Prefix = prefix.Mask(net.CIDRMask(int(pl), 128))
 
 	return nil
 }
